@@ -3,6 +3,7 @@ package c18
 import (
 	"encoding/json"
 	"flag"
+	"fmt"
 	"testing"
 
 	"pgregory.net/rapid"
@@ -19,6 +20,9 @@ func classes(c Case, res *result) []string {
 	}
 	if c.Via != "" {
 		cl = append(cl, "via:"+c.Via)
+	}
+	if c.DirSpell != 0 {
+		cl = append(cl, fmt.Sprintf("key-directory-spelling:%d", c.DirSpell))
 	}
 	if c.Decision != "" {
 		cl = append(cl, "decision:"+c.Decision)
